@@ -70,7 +70,7 @@ def gen_cases(tier, seed, ctx):
     # messages around 2^29 bytes (where a 32-bit bit counter wraps) and 2^32: both C builds vs hashlib
     blockfile = mkblock(ctx, seed)
     if tier == 'quick' and ctx['proof']['ok']:
-        bigs = [(1, 511, (1 << 20) - 1), (1, 512, 0)]
+        bigs = [(1, 511, (1 << 20) - 1)] + [(t, 512, 0) for t in (0, 1, 2, 3)]       # 2^29 bytes: every type keeps its own length counter
     else:   # thorough tier, or the search for a failing input after a broken proof obligation
         bigs = [(t, r, tl) for t in (0, 1, 2, 3) for (r, tl) in ((511, (1 << 20) - 1), (512, 0), (512, 1))]
         if tier == 'thorough':
@@ -118,7 +118,7 @@ def nontrivial(r):
 def run(tier, seed, replay=None):
     rule = ("HASH (bundled build) and HASHO (OpenSSL build) on the same inputs, each compared with the Lean model/spec: message lengths "
             "0..4 blocks+1 for all four digest types (every length; three segmentations at block/padding boundaries, all lengths x 3 in "
-            "thorough), random messages up to 150 kB in up to 40 update calls; HASHSEQ/HASHSEQO: 2-5 digests of differing types through one re-used type/hash object incl. unfinished ones; HASHBIG: 2^29-1, 2^29 (+1, 2^32+5 in thorough) byte messages "
+            "thorough), random messages up to 150 kB in up to 40 update calls; HASHSEQ/HASHSEQO: 2-5 digests of differing types through one re-used type/hash object incl. unfinished ones; HASHBIG: 2^29-1 (SHA-256) and 2^29 (all four types; +1 and 2^32+5 in thorough) byte messages "
             "through both C builds against hashlib; distinct by op line + build")
     return E.standard_run(PROP, MODULES, gen_cases, tier, seed, replay, ASSUMPTIONS, rule, post=post, nontrivial=nontrivial,
                           timeout_s=120, replay_setup=replay_setup)
